@@ -161,6 +161,15 @@ class Gen:
             op = r.choice(ops_avail[:3])
             events += [['register', a, [op], True], ['lookup', op, b],
                        ['register', a, r.choice([[op], []]), False, True], ['lookup', op, b], ['lookup', op, a]]
+        if r.random() < 0.35:
+            # an operation registered AWAY (op=False) for a type, then the type registered again without naming that operation: it
+            # stays registered away — for the type and for instances of its unregistered subclasses
+            pool = [(7 + i, b) for i, d in enumerate(desc) for b in d['bases'] if b >= 7] or [(r.randrange(7, 7 + n),) * 2]
+            b, a = r.choice(pool)
+            op = r.choice(ops_avail)
+            other = r.choice([x for x in ops_avail if x != op])
+            events += [['register', a, ['!' + op], False], ['lookup', op, a], ['lookup', op, b],
+                       ['register', a, r.choice([[other], []]), r.random() < 0.2], ['lookup', op, a], ['lookup', op, b]]
         if r.random() < 0.3:
             # re-registrations that repeat handler objects already in place
             for _ in range(r.randint(1, 3)):
@@ -272,6 +281,11 @@ def run_impl(case):
             kw = {}
             tags = []
             for op in kws:
+                if op.startswith('!'):
+                    kw[op[1:]] = False                  # "this type does not support the operation", said explicitly
+                    tags.append(None)
+                    last.pop((t, op[1:]), None)
+                    continue
                 if reuse and (t, op) in last:
                     kw[op], tg = last[(t, op)]          # the handler object registered for this type before
                 else:
@@ -343,7 +357,7 @@ def coq_case(case, out):
     evs = []
     for ev, res in zip(case['events'], out['results']):
         if ev[0] == 'register':
-            kw = clist('(%s, %s)' % (cstr(op), h_coq(tg)) for op, tg in zip(ev[2], res['tags']))
+            kw = clist('(%s, %s)' % (cstr(op.lstrip('!')), h_coq(tg)) for op, tg in zip(ev[2], res['tags']))
             evs.append('(ERegister %s %s %s)' % (cnat(ev[1]), kw, cbool(ev[3])))
         else:
             evs.append('(ELookup %s %s %s)' % (cstr(ev[1]), cnat(ev[2]), 'None' if res['h'] is None else '(Some %s)' % h_coq(res['h'])))
